@@ -56,6 +56,23 @@ def drive(tier):
                 if mi == 0:
                     for nh in {raw[0] ^ 4, 27 + ((raw[0] - 27 + 1) % 4) + (raw[0] - 27) // 4 * 4}:
                         ver(addr, m, base64.b64encode(bytes([nh]) + raw[1:]))
+    # one key, signed and verified under a history of chain selections (the address text follows the selected chain)
+    for hist in range(2 if tier == "quick" else 12):
+        sec = gen.rbytes(r, 32)
+        for step in range(4):
+            ch = r.choice(["mainnet", "testnet", "regtest", "signet"]) if step else "mainnet"
+            bitcoin.SelectParams(ch)
+            for comp in (True, False):
+                key = CBitcoinSecret.from_secret_bytes(sec, comp)
+                addr = P2PKHBitcoinAddress.from_pubkey(key.pub)
+                m = "chain %d %s" % (step, ch)
+                kk, sig = call(SignMessage, key, BitcoinMessage(m))
+                if kk == "exc":
+                    continue
+                kk2, res = call(VerifyMessage, addr, BitcoinMessage(m), sig)
+                R.add("msg.verify", {"addr": text(str(addr)), "msg": b2l(m.encode("utf8")), "sig": b2l(base64.b64decode(sig))},
+                      {"k": "ret", "res": bool(res)} if kk2 == "ret" else dict(exc_info(res), k="exc"), chain=ch, _cost=1500)
+    bitcoin.SelectParams("mainnet")
     return R.recs
 
 
